@@ -74,9 +74,16 @@ class TicketType(MichelsonType, prim='ticket', args_len=1):
 
     @classmethod
     def from_python_object(cls, py_obj) -> 'MichelsonType':
-        type_impl = PairType.create_type(args=[AddressType, cls.args[0], NatType])
-        comb = type_impl.from_python_object(py_obj)
-        return cls.from_comb(comb)
+        if isinstance(py_obj, list):
+            py_obj = tuple(py_obj)
+        assert isinstance(py_obj, tuple) and len(py_obj) == 3, f'expected (ticketer, item, amount), got {py_obj}'
+        ticketer, item, amount = py_obj
+        # NOTE: the content is converted on its own, otherwise a pair content would be flattened into the ticket comb
+        return cls(
+            ticketer=str(AddressType.from_python_object(ticketer)),
+            item=cls.args[0].from_python_object(item),
+            amount=int(NatType.from_python_object(amount)),
+        )
 
     def to_comb(self) -> PairType:
         return PairType.from_comb(items=[AddressType(self.ticketer), self.item, NatType(self.amount)])
